@@ -101,6 +101,9 @@ async def perform(ws, op, script):
             return ('raise_out', _Boom('boom'))
         if k == 'raise_custom':
             return ('raise_out', _Custom('custom'))
+        if k == 'raise_disconnected':
+            # e.g. a relay: a send to ANOTHER connection's socket failed; this connection's client is still there
+            return ('raise_out', falcon.WebSocketDisconnected(op[1]))
     except Exception as e:  # noqa
         return ('exc', _exc_name(e))
     raise AssertionError(op)
@@ -418,7 +421,7 @@ class Model(object):
                 r = cleanup_on_error()
         elif how in ('raise_http_error', 'raise_http_status'):
             r = self.do_close(3000 + arg, None)
-        elif how == 'raise_exception' or (how == 'raise_custom' and handler is None):
+        elif how in ('raise_exception', 'raise_disconnected') or (how == 'raise_custom' and handler is None):
             r = cleanup_on_error()
         elif how == 'raise_custom':
             if handler in ('closes', 'closes_kwonly'):
@@ -666,7 +669,7 @@ E_OPS = [
     ['accept', None, None], ['accept', 'chat', ['list', [['X-A', '1']]]], ['close', None, None], ['close', 999, None], ['close', 3000, 'bye'],
     ['send_text', 'hi'], ['send_text', 5], ['send_data', ['b', '00ff']], ['send_media', {'a': [1, 'é']}],
     ['receive_text'], ['receive_data'], ['receive_media'],
-    ['raise_http_error', 403], ['raise_http_status', 204], ['raise_exception'],
+    ['raise_http_error', 403], ['raise_http_status', 204], ['raise_exception'], ['raise_disconnected', 1001],
 ]
 CLIENTS = [
     ([], None),
@@ -702,6 +705,33 @@ class ScriptEnum(Suite):
         return run_case(case)
 
 
+class CloseCodeEnum(Suite):
+    """Close codes, exhaustively around every boundary of the documented rule (valid: 1000-1003, 1007-1014, >= 2000;
+    ValueError: < 1000, 1004-1006, 1015-1999): every integer 990..2010 plus outliers, given (a) to ws.close(code) after
+    accept, (b) to ws.close(code) before accept (a denial: the code is still validated), and (c) as
+    ws_options.error_close_code with a responder that raises after accept."""
+
+    name = 'close_codes'
+    exhaustive = True
+    budget = {'quick': 1, 'thorough': 1}
+    case_timeout = 60
+
+    def cases(self, tier):
+        codes = list(range(990, 2011)) + [-1, 0, 1, 2500, 2999, 3000, 3999, 4000, 4999, 5000, 65535, 2 ** 31]
+        base = {'capacity': 4, 'spec': '2.3', 'target': 'routed', 'client': [], 'disconnect': None, 'disc_at': None,
+                'fail_send_at': None, 'fault': None, 'mw': False, 'handler': None, 'err_code': None}
+        for c in codes:
+            yield dict(base, script=[['accept', None, None], ['close', c, None]])
+            yield dict(base, script=[['close', c, 'bye']])
+            yield dict(base, script=[['accept', None, None], ['raise_exception']], err_code=c)
+
+    def run(self, case):
+        info = run_case(case)
+        c = case['err_code'] if case['err_code'] is not None else case['script'][-1][1]
+        edge = any(abs(c - b) <= 1 for b in (1000, 1003, 1004, 1006, 1007, 1014, 1015, 1999, 2000))
+        return Info(edge, info.labels + ('close_code:' + ('valid' if c >= 1000 and not RESERVED(c) else 'invalid'),))
+
+
 _text = st.sampled_from(['hi', '', 'é€😀', '{"a": 1}', '"s"', 'plain'])
 _bytes = st.sampled_from([['b', ''], ['b', '00ff'], ['ba', '0102'], ['mv', '61']])
 _media = st.sampled_from([{'a': 1}, [1, 2, 'é'], 'str', 5, None, {'n': {'x': [True, None]}}])
@@ -722,6 +752,7 @@ _end = st.one_of(
     st.tuples(st.just('raise_http_error'), st.sampled_from([400, 403, 404, 500])),
     st.tuples(st.just('raise_http_status'), st.sampled_from([200, 204, 404])),
     st.tuples(st.just('raise_exception')), st.tuples(st.just('raise_custom')),
+    st.tuples(st.just('raise_disconnected'), st.sampled_from([1000, 1001, 1006])),
 )
 _cev = st.one_of(
     _text.map(lambda t: {'type': 'websocket.receive', 'text': t}),
@@ -777,5 +808,5 @@ class ScriptRandom(Suite):
         return run_case(case)
 
 
-SUITES = [ScriptEnum(), ScriptRandom()]
+SUITES = [ScriptEnum(), CloseCodeEnum(), ScriptRandom()]
 KNOWN = {}
